@@ -491,6 +491,20 @@ func checkC16(w *World, c *Check, tier string) {
 							work = append(work, b.Succs[1-nilSide])
 							continue
 						}
+						// if o.Replies != nil { o.Replies = Flatten(o.Replies) }: the nil side of a test of the very
+						// property has nothing to flatten
+						if tested, nilSide, ok := nilTestOperand(iff.Cond); ok {
+							own := false
+							for _, fp := range pr.prov(tested).list() {
+								if len(fp.Names) == 1 && fp.Names[0] == st.what {
+									own = true
+								}
+							}
+							if own {
+								work = append(work, b.Succs[1-nilSide])
+								continue
+							}
+						}
 					}
 				}
 				work = append(work, b.Succs...)
@@ -1854,4 +1868,44 @@ func nilSideOf(cond ssa.Value, v ssa.Value) (int, bool) {
 		}
 	}
 	return 0, false
+}
+
+// nilTestOperand: the value a nil test is about (x == nil, x != nil, IsNil(x), !…) and the successor taken when it is nil.
+func nilTestOperand(cond ssa.Value) (ssa.Value, int, bool) {
+	switch x := cond.(type) {
+	case *ssa.UnOp:
+		if x.Op == token.NOT {
+			if v, s, ok := nilTestOperand(x.X); ok {
+				return v, 1 - s, true
+			}
+		}
+	case *ssa.BinOp:
+		var other ssa.Value
+		switch {
+		case isNilConst(x.X):
+			other = x.Y
+		case isNilConst(x.Y):
+			other = x.X
+		default:
+			return nil, 0, false
+		}
+		if x.Op == token.EQL {
+			return other, 0, true
+		}
+		if x.Op == token.NEQ {
+			return other, 1, true
+		}
+	case *ssa.Call:
+		cal := x.Common().StaticCallee()
+		if cal == nil || len(x.Common().Args) != 1 {
+			return nil, 0, false
+		}
+		if cal.Name() == "IsNil" {
+			return x.Common().Args[0], 0, true
+		}
+		if cal.Name() == "IsNotNil" {
+			return x.Common().Args[0], 1, true
+		}
+	}
+	return nil, 0, false
 }
